@@ -159,6 +159,15 @@ def impl(case):
                     add("pd_series_f32", lambda: h1(pd.Series(c32, name=names[0]), bins1, weights=ww, **akw), True)
                     add("pl_series_f32", lambda: h1(pl.Series(names[0], c32), bins1, weights=ww, **akw), True)
                 add("array2d", lambda: h1(col.reshape(-1, 1), bins1, weights=(None if ww is None else ww.reshape(-1, 1)), **akw), False)
+                if n >= 4 and n % 2 == 0 and (ww is None or len(ww) == n):
+                    # multi-dimensional input that is not C-contiguous (Fortran order, a transposed view): values and weights pair up
+                    # by their logical position, whatever the memory layout
+                    mF = np.asfortranarray(col.reshape(2, n // 2)); wC = None if ww is None else ww.reshape(2, n // 2)
+                    add("array2d_F", lambda: h1(mF, bins1, weights=wC, **akw), False)
+                    if not has_nan: add("array2d_F_keepna", lambda: h1(mF, bins1, weights=wC, **dict(akw, dropna=False)), False)
+                    mT = col.reshape(n // 2, 2).T; wT = None if ww is None else np.ascontiguousarray(ww.reshape(n // 2, 2).T)
+                    if ww is None or all(float(x) in (0.5, 1.0, 2.0) for x in ww):      # another logical order: only where the float sums are exact in any order
+                        add("array2d_T", lambda: h1(mT, bins1, weights=wT, **akw), False)
                 add("pd_series", lambda: h1(pd.Series(col, name=names[0]), bins1, weights=ww, **akw), True)
                 if d["ints"] == "T" and not has_nan and n:
                     for dt in ("int16", "int32", "int64", "uint8"):
@@ -174,6 +183,8 @@ def impl(case):
                 add("pd_series_wseries", lambda: h1(pd.Series(col, name=names[0]), bins1, weights=(None if ww is None else pd.Series(ww)), **akw), True)
                 add("pd_series_acc", lambda: pd.Series(col, name=names[0]).physt.h1(bins1, weights=ww, **akw), True)
                 add("pd_df_acc", lambda: pd.DataFrame({names[0]: col, "w": (np.ones(n) if ww is None else ww)}).physt.h1(names[0], bins1, weights=(None if ww is None else "w"), **akw), True)
+                # an unrelated column with holes of its own must not cost any row
+                add("pd_df_acc_extra", lambda: pd.DataFrame({names[0]: col, "w": (np.ones(n) if ww is None else ww), "unrelated": np.where(np.arange(n) % 2 == 0, np.nan, 1.0)}).physt.h1(names[0], bins1, weights=(None if ww is None else "w"), **akw), True)
                 if not (d["ints"] == "T" and has_nan):
                     add("pl_series", lambda: h1(pl.Series(names[0], col), bins1, weights=ww, **akw), True)
                     add("pl_series_wseries", lambda: h1(pl.Series(names[0], col), bins1, weights=(None if ww is None else pl.Series("w", ww)), **akw), True)
